@@ -644,6 +644,11 @@ func runChild(script, dir string, seed int64, prm []int) {
 		round()
 		e.upload()
 		e.followStart()
+		// ... and one resumed run that applies later level-0 files: the -txid sidecar is REPLACED
+		// (a kill inside the replacement must leave the old or the new sidecar; seed C03f)
+		round()
+		e.upload()
+		e.followStart()
 	case "baseline":
 		for i := 0; i < rounds; i++ {
 			round()
